@@ -570,7 +570,7 @@ Definition detach_from (parent c : id) : W unit :=
   (do pn <- get_node parent;
    match index_of (citem_is c) (n_content pn) with
    | Some k => set_node parent (set_content pn (remove_at (n_content pn) k))
-   | None => wpanic "elementraw.rs move_element: position(..).unwrap() in the source parent"
+   | None => wfail ElementNotFound      (* fix dbf2768: position(..).ok_or(ElementNotFound)? *)
    end)%W.
 
 (* ElementRaw::move_element_position *)
@@ -580,7 +580,7 @@ Definition move_element_position (self mv : id) (pos : N) : W id :=
      match index_of (citem_is mv) (n_content n) with
      | Some cur => set_node self (set_content n (insert_at (remove_at (n_content n) cur) (N.to_nat pos) (CElem mv)));;
                    wret mv
-     | None => wpanic "elementraw.rs move_element_position: position(..).unwrap()"
+     | None => wfail ElementNotFound    (* fix dbf2768 *)
      end
    else wfail InvalidPosition)%W.
 
